@@ -484,10 +484,12 @@ func (c *C) Data(ctx context.Context, hdr textproto.Header, body io.Reader) erro
 	}
 
 	if err := textproto.WriteHeader(wc, hdr); err != nil {
+		c.abortData()
 		return c.wrapClientErr(err, c.serverName)
 	}
 
 	if _, err := io.Copy(wc, body); err != nil {
+		c.abortData()
 		return c.wrapClientErr(err, c.serverName)
 	}
 
@@ -496,6 +498,16 @@ func (c *C) Data(ctx context.Context, hdr textproto.Header, body io.Reader) erro
 	}
 
 	return nil
+}
+
+// abortData drops the connection in the middle of the message data stream.
+//
+// There is no in-band way to abandon DATA, and any command sent afterwards
+// (QUIT from Close, RSET before reuse) makes net/textproto terminate the
+// stream with <CRLF>.<CRLF> first, so the server would accept the part of the
+// message sent so far.
+func (c *C) abortData() {
+	c.cl.Close()
 }
 
 func (c *C) LMTPData(ctx context.Context, hdr textproto.Header, body io.Reader, statusCb func(string, *smtp.SMTPError)) error {
@@ -507,10 +519,12 @@ func (c *C) LMTPData(ctx context.Context, hdr textproto.Header, body io.Reader, 
 	}
 
 	if err := textproto.WriteHeader(wc, hdr); err != nil {
+		c.abortData()
 		return c.wrapClientErr(err, c.serverName)
 	}
 
 	if _, err := io.Copy(wc, body); err != nil {
+		c.abortData()
 		return c.wrapClientErr(err, c.serverName)
 	}
 
@@ -542,7 +556,8 @@ func (c *C) Close() error {
 			// when idle timeout happens.
 			c.Log.DebugMsg("QUIT error", "reason", c.wrapClientErr(err, c.serverName))
 		} else if errors.As(err, &netErr) &&
-			(netErr.Timeout() || netErr.Err.Error() == "write: broken pipe" || netErr.Err.Error() == "read: connection reset") {
+			(netErr.Timeout() || netErr.Err.Error() == "write: broken pipe" || netErr.Err.Error() == "read: connection reset" ||
+				errors.Is(netErr.Err, net.ErrClosed)) {
 			// The case for silently closed connections.
 			c.Log.DebugMsg("QUIT error", "reason", c.wrapClientErr(err, c.serverName))
 		} else {
